@@ -475,8 +475,13 @@ def tie_rejection_consistent(msg):
 
 
 def rounding_margin(msg):
-    """If a rejection message quotes two numbers that differ by less than 1e-15, return True."""
+    """If a rejection message quotes two numbers that differ by less than 1e-15, or one number that is less than 1e-15
+    (but not zero) away from a number with at most 10 decimals, return True: the quoted quantity is rounding dust."""
     nums = [Fraction(x) for x in re.findall(r"(?<![\d-])(\d+\.\d+|\d+)(?![\d-])", msg)]
+    for x in nums:
+        near = Fraction(round(x * 10 ** 10), 10 ** 10)
+        if 0 < abs(x - near) < Fraction(1, 10 ** 15):
+            return True
     for i in range(len(nums)):
         for j in range(i + 1, len(nums)):
             d = abs(nums[i] - nums[j])
